@@ -47,6 +47,18 @@ func setupPKI() {
 func sessionState(st int) *tls.SessionState {
 	setupPKI()
 	r := mrand.New(mrand.NewSource(hlib.Seed()*104729 + int64(st)))
+	if st >= 21 && st <= 28 {
+		// "twins": one fixed shape (so all of them encode to the same number of bytes), different content
+		secret := make([]byte, 48)
+		r.Read(secret)
+		css := tls.MakeClientSessionState(nil, tls.VersionTLS12, 0xc02f, secret, nil, nil)
+		css.SetCreatedAt(uint64(r.Int63n(1 << 40)))
+		_, ss, _ := css.ResumptionState()
+		extra := make([]byte, 24)
+		r.Read(extra)
+		ss.Extra = [][]byte{extra}
+		return ss
+	}
 	vers := []uint16{tls.VersionTLS10, tls.VersionTLS11, tls.VersionTLS12, tls.VersionTLS13}[r.Intn(4)]
 	suite := []uint16{0x002f, 0x009c, 0xc013, 0xc02f, 0xc030, 0xcca8, 0x1301, 0x1302, 0x1303}[r.Intn(9)]
 	secret := make([]byte, []int{1, 32, 48, 48, 48, 255}[r.Intn(6)])
@@ -91,6 +103,7 @@ type tkOp struct {
 	Cut  int    `json:"cut"`
 	N    int    `json:"n"`
 	Key  int    `json:"key"`
+	D    int    `json:"d"`
 }
 
 const fromEnd = 1000000 // scenario bit positions >= fromEnd count from the last bit backwards (spec/Tickets.tla FromEnd)
@@ -132,6 +145,7 @@ func runTicketScenario(id int, ops []tkOp, out *hlib.Out) {
 	base := time.Date(2026, 1, 1, 0, 0, 0, 0, time.UTC)
 	cfg := &tls.Config{Time: func() time.Time { return base.Add(time.Duration(hours) * time.Hour) }}
 	var tix [][]byte
+	var held []*tls.SessionState // every state DecryptTicket returned, kept as returned (never copied)
 	get := func(src int) ([]byte, bool) {
 		if src < 1 || src > len(tix) {
 			return nil, false
@@ -159,6 +173,9 @@ func runTicketScenario(id int, ops []tkOp, out *hlib.Out) {
 			}()
 			s, err = cfg.DecryptTicket(t, tls.ConnectionState{})
 		}()
+		if s != nil {
+			held = append(held, s)
+		}
 		sb, berr := stateBytes(s)
 		out.Emit(map[string]any{"ev": "Decrypt", "src": src, "ok": s != nil, "state": sb, "err": hlib.ErrStr(err) + berr + pn})
 	}
@@ -179,7 +196,7 @@ func runTicketScenario(id int, ops []tkOp, out *hlib.Out) {
 			orig, berr := stateBytes(ss)
 			t, err := cfg.EncryptTicket(tls.ConnectionState{}, ss)
 			tix = append(tix, t)
-			out.Emit(map[string]any{"ev": "Encrypt", "t": len(tix), "st": o.St, "err": hlib.ErrStr(err) + berr, "len": len(t), "state": orig})
+			out.Emit(map[string]any{"ev": "Encrypt", "t": len(tix), "st": o.St, "err": hlib.ErrStr(err) + berr, "len": len(t), "state": orig, "raw": hlib.Ints(t)})
 		case "Flip", "FlipAll":
 			t, ok := get(o.Src)
 			if !ok {
@@ -249,6 +266,20 @@ func runTicketScenario(id int, ops []tkOp, out *hlib.Out) {
 				return
 			}
 			decrypt(o.Src, t)
+		case "Recheck": // what the state returned by the d-th successful DecryptTicket says now
+			if o.D < 1 || o.D > len(held) {
+				out.Emit(map[string]any{"ev": "BadScenario", "op": o.Op})
+				return
+			}
+			sb, berr := stateBytes(held[o.D-1])
+			out.Emit(map[string]any{"ev": "Recheck", "d": o.D, "state": sb, "err": berr})
+		case "Reread": // what the slice returned by EncryptTicket holds now
+			t, ok := get(o.Src)
+			if !ok {
+				out.Emit(map[string]any{"ev": "BadScenario", "op": o.Op})
+				return
+			}
+			out.Emit(map[string]any{"ev": "Reread", "src": o.Src, "raw": hlib.Ints(t)})
 		case "Indep":
 			t, ok := get(o.Src)
 			if !ok {
